@@ -151,6 +151,15 @@ func genC14(seed uint64, r *Rng, idx, vecs int) *C14Case {
 			if gg.Chance(0.3) {
 				t = append([]*TNode{{K: "text", S: pick(gg, []string{" ", "\n", "  \n"})}}, t...)
 			}
+			if gg.Chance(0.25) { // leading white space split by a silent tag
+				t = append([]*TNode{{K: "text", S: "\n"}, {K: "tag", S: "assign w1 = 1"}, {K: "text", S: "\n  "}}, t...)
+			}
+			if gg.Chance(0.25) { // trailing white space split by a silent tag
+				t = append(t, &TNode{K: "text", S: "  \n"}, &TNode{K: "tag", S: "assign w2 = 2"}, &TNode{K: "text", S: "\n"})
+			}
+			if gg.Chance(0.05) {
+				t = []*TNode{{K: "tag", S: "assign w3 = 3"}} // a file that renders to nothing
+			}
 			return t
 		}
 		f.Tree, f.Alt = mkTree(1), mkTree(2)
